@@ -348,6 +348,18 @@ def run(ctx, rep_):
     self_type_is_its_class(F, rep_)
     class_types_compare_their_members(F, rep_)
     map_lookup_admits_absence(F, rep_)
+    # a built-in answers with the kind its signature declares, or fails: C14's probes of the conversion / abs / sqrt arms on boundary receivers
+    # (`abs` of the smallest int has no int magnitude: a bigint answer where the checker promised `int` reaches handlers that trust the static kind)
+    from props import C14 as _c14
+    from core import Report as _Report14
+    tmp14 = _Report14("C14", rep_.tier)
+    _c14.domain_probes(F, tmp14)
+    k14 = 0
+    for o in tmp14.obligations:
+        if o["key"] and o["key"].startswith("C14.domain"):
+            k14 += 1
+            rep_.ob("C02.builtin-kind", o["instance"], o["status"], o["detail"], o["where"], key=o["key"].replace("C14.domain", "C02.builtin-kind", 1), fn=o.get("fn"))
+    rep_.floor("C02.builtin-kind probes", k14, 20)
     open_coercion_compares_with_the_result(F, rep_)
     strings_have_no_slots(F, rep_)
     only_methods_get_the_object(F, rep_)
